@@ -1507,7 +1507,8 @@ class _RawSocketMixin:
     def _wait_until_readable(self, loop: asyncio.AbstractEventLoop) -> asyncio.Future:
         def callback(f: object) -> None:
             del self._receive_future
-            loop.remove_reader(self.__raw_socket)
+            if not self._closing:
+                loop.remove_reader(self.__raw_socket)
 
         f = self._receive_future = asyncio.Future()
         loop.add_reader(self.__raw_socket, f.set_result, None)
@@ -1517,7 +1518,8 @@ class _RawSocketMixin:
     def _wait_until_writable(self, loop: asyncio.AbstractEventLoop) -> asyncio.Future:
         def callback(f: object) -> None:
             del self._send_future
-            loop.remove_writer(self.__raw_socket)
+            if not self._closing:
+                loop.remove_writer(self.__raw_socket)
 
         f = self._send_future = asyncio.Future()
         loop.add_writer(self.__raw_socket, f.set_result, None)
@@ -1528,6 +1530,12 @@ class _RawSocketMixin:
         if not self._closing:
             self._closing = True
             if self.__raw_socket.fileno() != -1:
+                # Stop watching the socket before closing it: the event loop must not
+                # be left polling a closed descriptor, and uvloop defers the actual
+                # close for as long as a reader or writer is registered
+                loop = get_running_loop()
+                loop.remove_reader(self.__raw_socket)
+                loop.remove_writer(self.__raw_socket)
                 self.__raw_socket.close()
 
             if self._receive_future and not self._receive_future.done():
